@@ -516,7 +516,8 @@ def gen_system(rng):
     if rng.random() < 0.5:
         S["surface"] = {"w": lu(rng, 1e-4, 5e-3), "s": (lu(rng, 1e-5, 2e-4) if rng.random() < 0.6 else None),
                         "area": rng.choice([600, 300, 100]), "grams": round(lu(rng, 0.1, 5), 3),
-                        "mode": rng.choice(["ddl", "ddl", "donnan", "donnan", "no_edl", "diffuse_layer", "donnan_oci"])}
+                        "mode": rng.choice(["ddl", "ddl", "donnan", "donnan", "no_edl", "diffuse_layer", "donnan_oci", "ccm", "ccm", "cd_music"]),
+                        "cap": rng.choice([1.06, 0.5, 2.0, 5.0])}
     S["pp"] = None
     if rng.random() < 0.6:
         names = rng.sample([p for p in PP_MENU if p in ch.phases], rng.choice([1, 1, 2, 3]))
@@ -620,7 +621,9 @@ def render_input(S):
             L.append("  Hfo_s %s" % fnum(sf["s"]))
         L.append("  -equilibrate 1")
         L += {"ddl": [], "donnan": ["  -donnan"], "no_edl": ["  -no_edl"], "diffuse_layer": ["  -diffuse_layer 1e-8"],
-              "donnan_oci": ["  -donnan", "  -only_counter_ions"]}[sf["mode"]]
+              "donnan_oci": ["  -donnan", "  -only_counter_ions"],
+              "ccm": ["  -ccm %s" % sf.get("cap", 1.06)],
+              "cd_music": ["  -cd_music", "  -capacitances 1 5"]}[sf["mode"]]
     if S["pp"]:
         L.append("EQUILIBRIUM_PHASES 1")
         for nm, si, m in S["pp"]:
@@ -931,6 +934,7 @@ def diagnose_rows(case):
 
 FLOOR = F(1, 10 ** 24)        # absolute floor: less than one atom (1/N_A = 1.66e-24 mol)
 KEY_RK = "C02:rk_kinetics-ignores-MASS_BALANCE"
+KEY_CD = "C02:cd_music-surface-charge-lost-on-save"
 GEN_FILE = os.path.join(vlib.COQ, "Gen", "Gen_C02_Step.v")
 
 
@@ -971,7 +975,20 @@ def corpus_systems():
                       {"incr": True, "mix": [(1, 0.7), (2, 0.3)], "temps": None, "run_cells": False,
                        "rxn": {"reactants": [("NaOH", 1)], "units": "umol", "equal": False, "steps": [100.0, 200.0, 50.0], "count": 3}}],
              "corpus": "all-reactant-kinds"}
-    return [rk, probe]
+    ccm = {"db": "phreeqc.dat",
+           "sols": [{"n": 1, "pH": 5.0, "temp": 25, "water": 1, "comp": [("Na", 10.0)]}],
+           "exchange": None, "surface": {"w": 2e-3, "s": 5e-5, "area": 600, "grams": 1.0, "mode": "ccm", "cap": 1.06},
+           "pp": None, "gas": None, "ss": None, "kin": None,
+           "sims": [{"incr": False, "mix": None, "temps": None, "run_cells": False,
+                     "rxn": {"reactants": [("NaOH", 1)], "units": "mmol", "equal": False, "steps": [0.2], "count": 1}},
+                    {"incr": False, "mix": None, "temps": None, "run_cells": False, "rxn": None},
+                    {"incr": False, "mix": None, "temps": None, "run_cells": True,
+                     "rxn": {"reactants": [("HCl", 1)], "units": "mmol", "equal": False, "steps": [0.1], "count": 1}}],
+           "corpus": "ccm-surface-save-use-chain"}
+    cdm = json.loads(json.dumps(ccm))
+    cdm["surface"]["mode"] = "cd_music"
+    cdm["corpus"] = "cd_music-surface-save-use-chain"
+    return [rk, probe, ccm, cdm]
 
 
 def features(S):
@@ -1116,11 +1133,17 @@ def run_systems(ctx, chem, systems, use_gen, stats, label):
             if v1 and v2:
                 continue
             rk_sig = bool(S["kin"]) and S["kin"]["rk"] != "cvode" and "Negative moles in solution" in c["warn"]
-            key = KEY_RK if rk_sig else "C02:" + vlib.key_of([jobs[i]["text"], c["sim"]])
+            bad_elts = set(b.get("element", "amount") for b in py_bad + py_rows)
+            cd_sig = (not rk_sig and bool(S["surface"]) and S["surface"]["mode"] == "cd_music" and "Charge" in bad_elts
+                      and bad_elts <= {"Charge", "H", "O"})
+            key = KEY_RK if rk_sig else KEY_CD if cd_sig else "C02:" + vlib.key_of([jobs[i]["text"], c["sim"]])
             what = ("element/charge inventory not conserved in simulation %d (%s)" % (c["sim"], ", ".join(features(S))))
             if rk_sig:
                 what = ("rk_kinetics ignores MASS_BALANCE of the first reaction step and saves an unsolved system: "
                         "inventory not conserved, no error (simulation %d)" % c["sim"])
+            if cd_sig:
+                what = ("xsurface_save stores charge_balance 0 for CD_MUSIC charge planes: the surface charge is lost on "
+                        "SAVE/USE, net charge not conserved (simulation %d)" % c["sim"])
             ctx.violation(key, what, {"kind": "input", "input_text": jobs[i]["text"], "database": S["db"], "simulation": c["sim"],
                                       "system": S, "observed": (py_bad + py_rows)[:8],
                                       "expected": "after = before + reaction stoichiometry within 1e-6 of the inventory; no negative amounts",
@@ -1142,7 +1165,7 @@ def run(ctx):
         if not r["C02/Checker.vo"][0]:
             ctx.obligation("model builds without Gen (C02/Checker.vo)", False, r["C02/Checker.vo"][1][-1500:])
     chem = Chem(os.path.join(vlib.DB, "phreeqc.dat"))
-    ctx.rule = ("random one-cell systems (SOLUTION or MIX + REACTION + any subset of EXCHANGE, SURFACE[ddl|donnan|diffuse_layer|no_edl], "
+    ctx.rule = ("random one-cell systems (SOLUTION or MIX + REACTION + any subset of EXCHANGE, SURFACE[ddl|ccm|cd_music|donnan|diffuse_layer|no_edl], "
                 "EQUILIBRIUM_PHASES, GAS_PHASE[fixed p|fixed V], SOLID_SOLUTIONS, KINETICS[rk|cvode]), 1-6 reaction steps, cumulative or "
                 "incremental, 1-4 chained USE/SAVE simulations, DUMP -all after each; a case = one simulation; non-trivial = reaction amount "
                 "!= 0 or kinetics or >= 2 reactant kinds")
